@@ -37,6 +37,9 @@ var C04Queries = []string{
 	/* 24 */ "SELECT t.a, u.b FROM t.sym t JOIN u.sym u ON t.a = u.a WHERE t.b = u.b",
 	/* 25 */ "SELECT t.a, u.b FROM t.sym t LEFT JOIN u.sym u ON t.a = u.a WHERE t.b > 0",
 	/* 26 */ "SELECT t.a, v.b FROM t.sym t JOIN u.sym u ON t.a = u.a JOIN u.sym v ON u.b = v.b",
+	/* 27 (WTABLE=1) */ "SELECT w.a, unnest(w.l) AS e FROM w.sym w",
+	/* 28 (WTABLE=1) */ "SELECT x.a FROM (SELECT w.a, unnest(w.l) AS e FROM w.sym w) x",
+	/* 29 (WTABLE=1) */ "SELECT x.e FROM (SELECT w.a, unnest(w.l) AS e FROM w.sym w) x WHERE x.e > 0",
 }
 
 func ndTables(rows int, accept bool) []*Table {
@@ -49,7 +52,19 @@ func ndTables(rows int, accept bool) []*Table {
 		}
 		return t
 	}
-	return []*Table{mk("t"), mk("u")}
+	// w(a Int|NULL, l [Int]): a list-valued column for UNNEST queries (0..2 symbolic elements)
+	w := &Table{Name: "w", Cols: []string{"a", "l"}, Types: []octosql.Type{nullableInt, {TypeID: octosql.TypeIDList, List: struct{ Element *octosql.Type }{Element: &octosql.Int}}}, AcceptPushdown: accept}
+	if zzverif.Param("WTABLE") == 1 {
+		for i, r := range vx.NDTable("w", rows, 1) {
+			n := zzverif.Choice(fmt.Sprintf("w.r%d.len", i), 3)
+			elems := make([]octosql.Value, n)
+			for j := range elems {
+				elems[j] = octosql.NewInt(zzverif.Int64(fmt.Sprintf("w.r%d.l%d", i, j)))
+			}
+			w.Rows = append(w.Rows, []octosql.Value{r[0], octosql.NewList(elems)})
+		}
+	}
+	return []*Table{mk("t"), mk("u"), w}
 }
 
 // VerifC04Optimize: the optimised plan returns the same multiset of rows (and the same error
